@@ -249,6 +249,40 @@ Definition handler_mw (fixed : bool) (b : board) (id : Z) (p : list Z) : list ce
 Definition may_write (fixed : bool) (b : board) (id : Z) (payload scratch : list Z) : list cell :=
   if reaches_handler (b_devcfg b) id payload scratch then handler_mw fixed b id payload else [].
 
+(* ---- countdown-timer maintenance ----
+   supla_esp_countdown_timer_countdown() (reached only through supla_esp_gpio_relay_set_duration_timer on the relay
+   path of set-value and on the relay-function path of channel config) arms the slot of the named channel and then
+   evaluates ALL running slots (supla_esp_countdown_timer_cb): for a channel Y with a running timer it refreshes
+   supla_esp_state.Time2Left[Y] and, when that timer has expired, performs Y's pending switch-back
+   (_supla_esp_channel_set_value on the relay of Y).  `armed` = channels whose slot an earlier message may have armed. *)
+Definition relays_of (b : board) (c : Z) : list Z :=
+  filter (fun a => negb (r_gpio (relay_at b a) =? 255) && (r_channel (relay_at b a) =? c)) (slots RELAY_MAX).
+Definition relay_path (b : board) (c : Z) : bool :=
+  match filter (fun i => rs_matches b i c) (slots RS_MAX) with [] => negb (len (relays_of b c) =? 0) | _ :: _ => false end.
+Definition evaluates_timers (b : board) (id : Z) (p : list Z) : bool :=
+  if id =? CALL_SET_VALUE then relay_path b (nthz p NV_CHANNEL)
+  else if id =? CALL_GROUP_SET_VALUE then relay_path b (nthz p GV_CHANNEL)
+  else if (id =? CALL_GET_CONFIG_RESULT) || (id =? CALL_SET_CONFIG) then
+    let c := nthz p CC_CHANNEL in
+    (c <? CHANNEL_MAX) && (c <? TIME2_COUNT) && is_relay_func (s32 (le32 p CC_FUNC)) && negb (len (relays_of b c) =? 0)
+  else false.
+Definition timer_cells (b : board) (y : Z) : list cell :=
+  (if (0 <=? y) && (y <? STATE_TIME2_COUNT) then [(T_TIME2LEFT, y)] else [])
+  ++ flat_map (relay_out_cells b)
+       (filter (fun a => negb (r_gpio (relay_at b a) =? 255) && (r_channel (relay_at b a) =? y)) (slots RELAY_MAX)).
+Definition timer_mw (b : board) (armed : list Z) (id : Z) (payload scratch : list Z) : list cell :=
+  if reaches_handler (b_devcfg b) id payload scratch && evaluates_timers b id payload
+  then flat_map (timer_cells b) armed else [].
+(* everything one delivered message may write: its own effects and the maintenance of running timers *)
+Definition may_write_t (fixed : bool) (b : board) (armed : list Z) (id : Z) (payload scratch : list Z) : list cell :=
+  may_write fixed b id payload scratch ++ timer_mw b armed id payload scratch.
+Definition armed_after (b : board) (armed : list Z) (id : Z) (payload scratch : list Z) : list Z :=
+  if reaches_handler (b_devcfg b) id payload scratch && evaluates_timers b id payload
+  then match named_channel id payload with Some c => c :: armed | None => armed end
+  else armed.
+(* a cell that the evaluation of channel y's timer may touch: its remaining time, its relay pin(s) and saved relay state *)
+Definition timer_table (t : Z) : bool := (t =? T_TIME2LEFT) || (t =? T_GPIO) || (t =? T_STATE_RELAY).
+
 (* ---- ownership: which channel a cell belongs to ---- *)
 Definition rs_indexed (t : Z) : bool :=
   (t =? T_RS) || (t =? T_TIME1) || (t =? T_TIME3) || (t =? T_AUTO_O) || (t =? T_AUTO_C) || (t =? T_TILT_TYPE)
@@ -294,7 +328,7 @@ Definition no_object (b : board) (c : Z) : Prop :=
 
 (* ================= wire interface ================= *)
 (* events: 0 CFG devcfg fwupd nrel (gpio ch flags chflags)* nrs (up down)* nin (gpio type flags relay_gpio channel atcap)*
-           1 GATE | 2 SRV call rr : payload | 3 ADV us
+           1 GATE | 2 SRV call rr : payload | 3 ADV us | 4 SKEW us (the clock runs on, no timer fires)
    outputs: 0 EV k | 1 V call result has_data | 2 MW table index *)
 Fixpoint take_relays (n : nat) (l : list Z) : list relay * list Z :=
   match n, l with
@@ -336,25 +370,27 @@ Definition verdict_ints (id : Z) (v : verdict) : list Z :=
   | VDataError => [id; SRPC_RESULT_DATA_ERROR; 0]
   end.
 
-Record mstate := { m_board : option board; m_scratch : list Z; m_k : Z }.
+Record mstate := { m_board : option board; m_scratch : list Z; m_k : Z; m_armed : list Z }.
 
 (* the code of the tree as it will be after the proposed repair *)
 Definition CURRENT_FIXED : bool := true.
 
 Definition step_wire (fixed : bool) (s : mstate) (w : wire) : mstate * list wire :=
   let '(k, a, p) := w in
-  if k =? 0 then ({| m_board := Some (board_of_ints a); m_scratch := m_scratch s; m_k := m_k s |}, [])
-  else if k =? 1 then ({| m_board := None; m_scratch := m_scratch s; m_k := m_k s |}, [])
+  if k =? 0 then ({| m_board := Some (board_of_ints a); m_scratch := m_scratch s; m_k := m_k s; m_armed := [] |}, [])
+  else if k =? 1 then ({| m_board := None; m_scratch := m_scratch s; m_k := m_k s; m_armed := [] |}, [])
   else if k =? 2 then
     let id := hd 0 a in
     let d := scratch_after (m_scratch s) p in
     let v := getdata TARGET_BITS SRPC_ROWS id (len p) d in
     let mw := match m_board s with
-              | Some b => map (fun c => mk 2 [fst c; snd c] []) (may_write fixed b id p (m_scratch s))
+              | Some b => map (fun c => mk 2 [fst c; snd c] []) (may_write_t fixed b (m_armed s) id p (m_scratch s))
               | None => []
               end in
-    ({| m_board := m_board s; m_scratch := d; m_k := m_k s + 1 |}, mk 0 [m_k s] [] :: mk 1 (verdict_ints id v) [] :: mw)
-  else ({| m_board := m_board s; m_scratch := m_scratch s; m_k := m_k s + 1 |}, [mk 0 [m_k s] []]).
+    let armed' := match m_board s with Some b => armed_after b (m_armed s) id p (m_scratch s) | None => m_armed s end in
+    ({| m_board := m_board s; m_scratch := d; m_k := m_k s + 1; m_armed := armed' |},
+     mk 0 [m_k s] [] :: mk 1 (verdict_ints id v) [] :: mw)
+  else ({| m_board := m_board s; m_scratch := m_scratch s; m_k := m_k s + 1; m_armed := m_armed s |}, [mk 0 [m_k s] []]).
 
 Fixpoint run_wire (fixed : bool) (s : mstate) (ws : list wire) : list wire :=
   match ws with
@@ -362,4 +398,4 @@ Fixpoint run_wire (fixed : bool) (s : mstate) (ws : list wire) : list wire :=
   | w :: r => let '(s', o) := step_wire fixed s w in o ++ run_wire fixed s' r
   end.
 Definition main_wire (ws : list wire) : list wire :=
-  run_wire CURRENT_FIXED {| m_board := None; m_scratch := []; m_k := 0 |} ws.
+  run_wire CURRENT_FIXED {| m_board := None; m_scratch := []; m_k := 0; m_armed := [] |} ws.
